@@ -93,13 +93,19 @@ structure Decl where
   cont : ContainsCfg
   acc : PyVal → Bool                   -- does the `contains` type convert this item?
   post : PyVal → M PyVal               -- `cls.post_validate`
+  pack : PyVal → M PyVal := pure       -- `cls.__origin__(value)`: the converted items packed into the origin container
+                                       -- (a set de-duplicates); only reached through the args parser (rule.py:1726-1733)
 
-/-- rule.py:1723-1760 for `isinstance(value, origin)`, default options (fail-fast) -/
+/-- rule.py:1723-1733: the args parser converts the items, the result is packed into the origin container — **before**
+any constraint runs, so that every constraint looks at the value that is going to be returned -/
 def applyArgs (d : Decl) (v : PyVal) : M PyVal :=
   match d.args with
-  | some f => f v
+  | some f => do
+    let items ← f v
+    d.pack items
   | none => pure v
 
+/-- rule.py:1723-1760 for `isinstance(value, origin)`, default options (fail-fast) -/
 def parseTyped (P : Prims) (d : Decl) (v : PyVal) : M PyVal := do
   let v1 ← applyArgs d v
   let v2 ← validate P d.validators v1
@@ -107,8 +113,9 @@ def parseTyped (P : Prims) (d : Decl) (v : PyVal) : M PyVal := do
   d.post v3
 
 /-- the declaration as the class statement produces it -/
-def declOf (mro : List Body) (args : Option (PyVal → M PyVal)) (acc : PyVal → Bool) (post : PyVal → M PyVal) : Decl :=
-  { validators := compile mro, args := args, cont := containsCfg mro, acc := acc, post := post }
+def declOf (mro : List Body) (args : Option (PyVal → M PyVal)) (acc : PyVal → Bool) (post : PyVal → M PyVal)
+    (pack : PyVal → M PyVal := pure) : Decl :=
+  { validators := compile mro, args := args, cont := containsCfg mro, acc := acc, post := post, pack := pack }
 
 /-! ### `Sub[item]` — parametrising a (sub)class (`Rule.__class_getitem__`, rule.py:1194-1205, and the re-binding of the
 helper for every subclass in `__init_subclass__`, rule.py:1309-1319): `cls.annotate(cls.__origin__, *args)` is
